@@ -125,7 +125,8 @@ CLAIMED = {
              "standard identity; reset re-initialises every field update/finish write; possibly-aliasing padding stores OR their bits "
              "in; the carry-out predicate of a multi-word addition with carry-in equals the true carry on every feasible ordering class "
              "of (sum, operands, carry-in); reset re-initialises and reopens on every path with a hash object, whatever its state; every subscript of a fixed-size array with a known largest index (loop stride "
-             "taken into account) stays inside the array. " + DECIDES % "C11",
+             "taken into account) stays inside the array; in every update function the input pointer is advanced between two reads and the tail lands at offset 0 once the partial block was completed; "
+             "the wrap-around of the low length word carries into the high word. " + DECIDES % "C11",
         technique="switch / if-chain / constant-table dispatch recovery, exit typestate with guard dataflow at slot calls, linear index evaluation of the encoder loop, typed-AST narrowing rule with sibling cross-check, constant-geometry agreement with record layouts, transitive field write sets, index-aliasing rule, exhaustive evaluation of comparison-only predicates over the finite set of ordering classes"),
     "C12": dict(
         text="Rules C12.1-C12.6 on ptree*.c: dispatch triples per tree type; every descent loop (lookup, 3 inserts, 3 removes) calls the "
@@ -196,7 +197,7 @@ CLAIMED = {
         technique="path-sensitive resource typestate with inferred acquire/release/ownership summaries; use-after-release typestate; who-may-call rule with positive control; bottom-up NULL-need summaries of destructors matched against per-path member facts at unwinding calls"),
     "C20": dict(
         text="Rules C20.1-C20.5: ownership table inferred from the constructors (fields filled from acquiring calls, list heads kept in objects) checked against each "
-             "object's free function on every path where the field may be valid; every free function hands its non-NULL argument to p_free on every path; every descriptor/handle obtained in a function is closed once, owned by the returned object or "
+             "object's free function on every path where the field may be valid (fields made through the object's own function slots included; objects linked into owned lists are released through their destructor); every free function hands its non-NULL argument to p_free on every path; every descriptor/handle obtained in a function is closed once, owned by the returned object or "
              "returned on every path, and never closed twice - a descriptor a constructor was given as a parameter is not closed by the constructor's failure exits when its callers close it too; munmap gets the mapped length; allocations held only in locals are released "
              "on every path, success and failure exits alike; IPC names are unlinked by the free path exactly when owned and the ownership flag is "
              "set before any later step of the creation can fail. /proc-level accounting over call sequences is not decided. " + DECIDES % "C20",
